@@ -1,5 +1,6 @@
 """C08 — signature and polynomial encodings are canonical."""
 import json
+import re
 import vlib
 from vlib import Harness
 from props import wrapc
@@ -88,8 +89,11 @@ def run(run, scr, tier, seed, only=None):
             own, other = wrapc.split_failures(r, 'C08')
             what = '; '.join(d for _, d, _ in own)[:300]
             path = vlib.save_replay('C08', r.h.name.split('::')[-1], {'property': 'C08', 'kind': 'codec', 'harness': r.h.name, 'failed': own})
-            # native confirmation through the codec differential test
-            res, msgs = native(scr)
+            # native confirmation: the solver's own hint section first (concrete playback), then the structured codec differential
+            wit = window_witness(scr, r) if 'hint_window' in r.h.name else ''
+            res, msgs = native(scr, wit)
+            if wit:
+                p = json.load(open(path)); p['witness'] = wit; json.dump(p, open(path, 'w'))
             if 'fail' in res.values():
                 run.violation('codec-' + r.h.name.split('::')[-1], f'{r.h.name}: {what}; native differential: {msgs[:3]} {res}', path)
             else:
@@ -101,8 +105,27 @@ def run(run, scr, tier, seed, only=None):
         trusted_base=TRUSTED)
 
 
-def native(scr):
-    src = open(vlib.VERIF + '/replay/c08_codec.rs').read().replace('@VERIF@', vlib.VERIF)
+def window_witness(scr, r):
+    """hint section of a failing window harness from Kani's concrete playback: y = background with the six symbolic bytes filled in"""
+    m = re.search(r'c08_hint_window_(\d+)$', r.h.name)
+    if not m:
+        return ''
+    w0 = int(m.group(1))
+    vals, _ = vlib.kani_playback_values(scr, r.h)
+    if not vals:
+        return ''
+    stream = b''.join(vals)
+    if len(stream) < 6:
+        return ''
+    y = [(10 + i * 20) & 255 for i in range(8)] + [0, 0]
+    for k in range(4):
+        y[w0 + k] = stream[k]
+    y[8], y[9] = stream[4], stream[5]
+    return 'hint_case::<2>(8, &[' + ', '.join(f'{b}u8' for b in y) + '], &mut bad);\n    '
+
+
+def native(scr, witness=''):
+    src = open(vlib.VERIF + '/replay/c08_codec.rs').read().replace('@VERIF@', vlib.VERIF).replace('// @WITNESS@', witness)
     res = {}; msgs = []
     for rel in (False, True):
         oc, out = vlib.native_test(scr, src, 'c08_codec_differential', release=rel, timeout=1800)
@@ -114,7 +137,7 @@ def native(scr):
 
 
 def replay(run, scr, path):
-    res, msgs = native(scr)
+    res, msgs = native(scr, json.load(open(path)).get('witness', ''))
     vlib.log(f'replay {path}: {res} {msgs[:4]}')
     if 'fail' in res.values():
         vlib.log(f'VIOLATION property=C08 replay={path}')
